@@ -98,6 +98,16 @@ def estimate(  # noqa: PLR0913
     if lambda_check and any(model.weights != 1.0):
         warnings.warn("Normalizing model to have all 1's for weights")
         model = model.copy().normalize(0)
+    if data_subs.size == 0:
+        # An empty sample (e.g. both Poisson-drawn stratum sizes were zero)
+        # contributes nothing
+        F_empty = 0.0
+        G_empty = [np.zeros_like(factor) for factor in model.factor_matrices]
+        if function_handle is not None and gradient_handle is not None:
+            return F_empty, G_empty
+        if function_handle is not None:
+            return F_empty
+        return G_empty
     model_vals, Zexp = estimate_helper(model.factor_matrices, data_subs)
 
     F: Optional[float] = None
